@@ -447,6 +447,25 @@ static void ph_nest3(void *u) {
         MC_RUN(OP_SET, H(g_dom.v[i]), I(5), I(11));
     }
 }
+// disks around cells that sit on the 30 icosahedron edges (where boundaries get distortion vertexes and vertexes lie exactly on an edge)
+static void ph_edges(void *u) {
+    static const int ress[] = {15, 13, 11, 9, 7, 5, 14, 12};
+    uint64_t idx = 0;
+    for (int ri = 0; ri < (mc_thorough ? 8 : 5); ri++) {
+        U64Vec e = {0};
+        dom_edge(ress[ri], mc_thorough ? 1200 : 300, 0, &e);
+        for (size_t i = 0; i < e.n; i++, idx++) {
+            if (!mc_mine(idx)) continue;
+            if (mc_tick(15)) {
+                uv_free(&e);
+                return;
+            }
+            MC_RUN(OP_SET, H(e.v[i]), I(2), I(0));
+            MC_RUN(OP_SET, H(e.v[i]), I(1), I(1));
+        }
+        uv_free(&e);
+    }
+}
 static void ph_bad(void *u) {
     uint64_t idx = 0;
     for (size_t i = 0; i < g_dom.n; i += (mc_thorough ? 11 : 53))
@@ -494,6 +513,7 @@ int main(int argc, char **argv) {
     mc_phase("sets with a planted non-cell (error clause)", ph_bad, NULL);
     mc_phase("wide bands at resolutions 0-2", ph_band, NULL);
     mc_phase("triple nesting from thinned origins", ph_nest3, NULL);
+    mc_phase("disks around cells on the icosahedron edges", ph_edges, NULL);
     // the large catalogue last, so that a deadline cuts only it short
     mc_phase("set catalogue", ph_sets, NULL);
     return mc_finish();
